@@ -151,8 +151,8 @@ type Cluster struct {
 	// IncValue, if non-nil, is the cell value every increment is answered with (a well-behaved
 	// server sends 8 bytes).
 	IncValue []byte
-	mu   sync.Mutex
-	cond *sync.Cond
+	mu       sync.Mutex
+	cond     *sync.Cond
 
 	start      time.Time
 	Regions    []*Region
